@@ -86,7 +86,9 @@ def export_tp(tp, **over):
     from jax2onnx import to_onnx
     import inspect
     dp = bool(over.pop("enable_double_precision", tp_double(tp)))
-    fn = tp_callable(tp, dp)
+    fn = over.pop("_fn", None)              # reuse an already instantiated callable (same parameters as a JAX reference run)
+    if fn is None:
+        fn = tp_callable(tp, dp)
     spec = tp_spec(tp, dp)
     if spec is None:
         if inspect.signature(fn).parameters:
